@@ -234,7 +234,10 @@ class ChangeDistiller:
                 source_non_expression_leaves = dict(_get_non_expression_leaves(source_node))
                 target_non_expression_leaves = dict(_get_non_expression_leaves(target_node))
 
-                if source_non_expression_leaves != target_non_expression_leaves:
+                if (
+                    source_non_expression_leaves != target_non_expression_leaves
+                    or _children_changed_args(source_node, target_node, matchings)
+                ):
                     edit_script.append(Update(source_node, target_node))
                 elif not delta_only:
                     edit_script.append(Keep(source_node, target_node))
